@@ -68,8 +68,8 @@ from chancommon import KIND, CASE_WALL, run_impl, shrink_candidates, classify_co
 
 SPECS = ["C02"]
 AUX = ["C02G"]   # prompts behind a look-behind assertion (\\b, ^ under MULTILINE, (?<=..), (?<!..)): real Channel vs GuardPrompt model
-THEOREMS = ["C02.rupLoop_spec", "C02.readUntilPrompt_spec", "C02.rup_spec", "C02.case_spec", "ChanCase.keeps", "C02.rup_fragmentation", "C02.rup_fragmentation_gen", "C02.promptEnd_anchored_iff", "Re.M_sound", "Re.M_complete", "Re.L_maxWidth", "Re.search_sound", "Re.search_complete"]
-LEAN_MODULES = ["TbotVerif.Props.ChanCase", "TbotVerif.Props.C02Extra"]
+THEOREMS = ["C02.rupLoop_spec", "C02.readUntilPrompt_spec", "C02.rup_spec", "C02.case_spec", "ChanCase.keeps", "C02.rup_fragmentation", "C02.rup_fragmentation_gen", "C02.promptEnd_anchored_iff", "C02.tail_test_iff", "C02.tail_test_none", "C02.tail_test_offset", "C02.tail_test_wrong_with_lookbehind", "Re.M_sound", "Re.M_complete", "Re.L_maxWidth", "Re.search_sound", "Re.search_complete"]
+LEAN_MODULES = ["TbotVerif.Props.ChanCase", "TbotVerif.Props.C02Extra", "TbotVerif.Props.C02Tail"]
 QUICK_N, THOROUGH_N = 4000, 60000
 QUICK_BUDGET, THOROUGH_BUDGET = 40, 600
 RULE = ("random (prompt, stream, composition, schedule, chunk size, per-call/configured prompt) tuples; streams are "
